@@ -229,9 +229,55 @@ def run(ctx):
                ("interior-mutable static `%s` %s" % (ty[:60], "is written from tracked-reachable code: %s" % writers[:3] if writers else "is not enumerated")),
                f.where())
     ctx.floor("interior-mutable statics", n_static, 8)
+    _plugin_state(ctx, F)
     for k in sorted(set(exc) - used):
         ctx.ob("R13.x", "stale:" + k, False, "exception row no longer matches", "tables/c13_eq_exceptions.tsv")
     _controls(ctx, F)
+
+
+INTERIOR = re.compile(r"\b(Mutex|RwLock|RefCell|Cell|UnsafeCell|OnceLock|OnceCell|LazyLock|LazyCell|Atomic\w+|DashMap|ThreadLocal)\b")
+PLUGIN_TRAITS = ("::MacroPlugin", "::InlineMacroExprPlugin", "::AnalyzerPlugin")
+
+
+def _plugin_state(ctx, F):
+    """R13.7: the objects that tracked queries call into without salsa seeing their state - the macro, inline-macro and
+    analyzer plugins held by the database - carry no interior-mutable state.  A plugin is shared by every revision of the
+    database; anything it remembers between calls (a memo keyed by a stable pointer, a name, a file id) is not invalidated
+    when the file changes."""
+    n = 0
+    for tr in PLUGIN_TRAITS:
+        for im in F.impls_of(tr):
+            adt_path = im.get("self_adt")
+            if not adt_path or "::test_utils::" in adt_path or "::test::" in adt_path:
+                continue
+            n += 1
+            found = _interior_fields(F, adt_path, set(), 0)
+            ctx.ob("R13.7", "plugin-state:%s" % adt_path, not found,
+                   "plugin `%s` has no interior-mutable state" % last_seg(adt_path) if not found else
+                   "plugin `%s` keeps interior-mutable state outside salsa (%s): what it remembers between calls survives the edits that "
+                   "should invalidate it" % (last_seg(adt_path), "; ".join(found[:3])),
+                   "%s:%s" % ((F.adts.get(adt_path) or {}).get("file", ""), (F.adts.get(adt_path) or {}).get("line", "")))
+    ctx.floor("plugin types held by the database", n, 15)
+
+
+def _interior_fields(F, adt_path, seen, depth):
+    """Fields (transitively through workspace types) whose type has interior mutability."""
+    if adt_path in seen or depth > 4:
+        return []
+    seen.add(adt_path)
+    adt = F.adts.get(adt_path)
+    if not adt:
+        return []
+    out = []
+    for v in adt["variants"]:
+        for name, ty in v["fields"]:
+            m = INTERIOR.search(ty)
+            if m:
+                out.append("field `%s`: %s" % (name, ty[:80]))
+                continue
+            for inner in re.findall(r"cairo_lang_\w+(?:::\w+)+", ty):
+                out += _interior_fields(F, inner, seen, depth + 1)
+    return out
 
 
 def _controls(ctx, F):
